@@ -156,7 +156,7 @@ def addIdentifier (name : String) (coord : Option Coord) : P Unit := fun s =>
 against the scope stack *now*, scope push/pop on braces *now*, error callback raising. -/
 def lexToken : P (Option PTok) := fun s =>
   match s.raw with
-  | [] => .ok none s
+  | [] => .ok none { s with lexCalls := s.lexCalls + 1 }
   | .eof :: _ => .ok none { s with fileRef := s.pulled + 1, lexCalls := s.lexCalls + 1 }
   | .stuck :: _ => .err .fuel
   | .err :: _ => .err (.lex s.pulled)
